@@ -193,6 +193,10 @@ func c08Alphabet(p string, full bool) [][]*resp.Bin {
 		}
 	}
 	out = append(out, A())
+	if full {
+		// the password split into a user name and a password; a null where the second argument is expected
+		out = append(out, A(bp(p[:1]), bp(p[1:])), A(bp(p[:len(p)-1]), bp(p[len(p)-1:])), A(bp(p), nil), A(nil, bp(p)), A(bp(p), bp(p)))
+	}
 	out = append(out, []*resp.Bin{bp("GET"), bp("k")}, []*resp.Bin{bp("SELECT"), bp("3")})
 	if full {
 		out = append(out, []*resp.Bin{bp("SET"), bp("k"), bp("v")}, []*resp.Bin{bp("PING")}, []*resp.Bin{bp("ECHO"), bp("x")},
@@ -203,7 +207,7 @@ func c08Alphabet(p string, full bool) [][]*resp.Bin {
 
 func TestC08(t *testing.T) {
 	h := newHarness(t, "C08", "server configured through SetRequirePass+Start; request alphabet = AUTH with every candidate of a dictionary built around the password ('' , null bulk, strict prefixes, password+suffix, case-swapped, embedded NUL, trailing CRLF, leading space, the password), "+
-		"two-argument AUTH with user names '' / default / x and right/wrong/empty passwords, AUTH without argument, and non-AUTH commands (GET, SET, SELECT, PING, ECHO, CONFIG GET, INCR, an unknown command). "+
+		"two-argument AUTH with user names '' / default / x and right/wrong/empty passwords, the password split into user name + remainder, a null bulk as first or second of two arguments, AUTH without argument, and non-AUTH commands (GET, SET, SELECT, PING, ECHO, CONFIG GET, INCR, an unknown command). "+
 		"EXHAUSTIVE: all sequences of length <=3 (thorough: length <=4, and length <=3 at 2 more passwords) on one connection; all interleavings of two connections with <=2 requests each over a reduced alphabet; random: 1..3 connections, up to 8 requests each, random interleavings, 5 passwords. "+
 		"Oracle: per-connection authorization model; any handler call or non-error reply to a non-AUTH command on a connection whose model state is unauthorized, +OK to an AUTH not carrying exactly the password, or a refused exact AUTH is a violation. "+
 		"Non-trivial: a wrong AUTH candidate followed by a non-AUTH command on the same connection, or >=2 connections in different states. Distinct = distinct (password, sequence).")
